@@ -620,7 +620,14 @@ func (t *tr) call(ins ssa.Instruction, cc *ssa.CallCommon, R string, heaps map[s
 					idx = k
 				}
 			}
-			term, err := t.evalGoal(ac.Expr, t.pointEnv(t.curBlock, idx), heaps, t.oldHeaps)
+			penv := t.pointEnv(t.curBlock, idx)
+			// arg0, arg1, ...: the arguments of the call the assertion is attached to (receiver first for methods)
+			for k := range args {
+				if len(args[k]) == 1 && k < len(argTypes) {
+					penv.vars[fmt.Sprintf("arg%d", k)] = &sv{ty: argTypes[k], sort: leafSort(argTypes[k]), terms: []string{args[k][0]}}
+				}
+			}
+			term, err := t.evalGoal(ac.Expr, penv, heaps, t.oldHeaps)
 			if err != nil {
 				t.fatalf("assert %s (%s): %v", ac.Label, ac.Where, err)
 				continue
